@@ -478,6 +478,26 @@ func ExtendVoucher[T protocol.PublicKeyOrChain](v *Voucher, owner crypto.Signer,
 		return nil, fmt.Errorf("owner key for signing does not match the last signature of the voucher to be extended")
 	}
 
+	// The next owner key must have the type and size/curve of the
+	// manufacturer key as well
+	var nextOwnerPubKey crypto.PublicKey = nextOwner
+	if chain, ok := any(nextOwner).([]*x509.Certificate); ok {
+		if len(chain) == 0 {
+			return nil, fmt.Errorf("next owner certificate chain is empty")
+		}
+		nextOwnerPubKey = chain[0].PublicKey
+	}
+	switch ownerPub := ownerPubKey.(type) {
+	case *ecdsa.PublicKey:
+		if nextPub, ok := nextOwnerPubKey.(*ecdsa.PublicKey); !ok || nextPub.Curve != ownerPub.Curve {
+			return nil, fmt.Errorf("next owner key did not match the type and size/curve of the manufacturer key")
+		}
+	case *rsa.PublicKey:
+		if nextPub, ok := nextOwnerPubKey.(*rsa.PublicKey); !ok || nextPub.Size() != ownerPub.Size() {
+			return nil, fmt.Errorf("next owner key did not match the type and size/curve of the manufacturer key")
+		}
+	}
+
 	// Create the next owner PublicKey structure
 	asCOSE := v.Header.Val.ManufacturerKey.Encoding == protocol.CoseKeyEnc
 	if _, ok := any(nextOwner).([]*x509.Certificate); ok {
